@@ -1,7 +1,7 @@
 """C20 'is updated' / 'is changed' conditions report changes since the mark (engine A).
 
 Small programs: one watched share, a writer framer (in front of or behind the
-observed framer in the tick order) writing planned values at planned ticks, and
+observed framer in the tick order) writing planned values (or adding fields through a deed) at planned ticks, and
 an observed framer whose flat frames each carry one go clause, unconditional or
 guarded by an update / change condition with or without `in frame` and shared
 `by` marks.  Observed: which frame is active at the end of every tick.
@@ -37,6 +37,21 @@ def need_opts():
     return out
 
 
+def wstmt(v):
+    """the driver's write: a value for the field `value`, or ("add", name, val): a deed sets field `name`, which the share
+    does not have before the first such write (a field added since the snapshot)"""
+    if isinstance(v, (list, tuple)):
+        return {"v": "raw", "text": 'do vf add field with path ".w" name "%s" val %d at enter' % (v[1], v[2])}
+    return {"v": "put", "data": {"value": v}, "dst": ".w", "ctx": None}
+
+
+def apply_write(fields, v):
+    if isinstance(v, (list, tuple)):
+        fields[v[1]] = v[2]
+    else:
+        fields["value"] = v
+
+
 def build(case):
     frames = []
     gates = case.get("gates") or {}
@@ -55,13 +70,13 @@ def build(case):
     for i, (t, v) in enumerate(plan):
         st = []
         if i > 0:
-            st.append({"v": "put", "data": {"value": plan[i - 1][1]}, "dst": ".w", "ctx": None})
+            st.append(wstmt(plan[i - 1][1]))
         st.append({"v": "repeat", "n": t - prev})
         dframes.append(P.frame("d%d" % i, st))
         prev = t
     st = []
     if plan:
-        st.append({"v": "put", "data": {"value": plan[-1][1]}, "dst": ".w", "ctx": None})
+        st.append(wstmt(plan[-1][1]))
     st.append({"v": "repeat", "n": max(1, TICKS - prev)})
     dframes.append(P.frame("dl", st))
     dframes.append(P.frame("dfin", [{"v": "bid", "ctl": "stop", "who": ["all"], "ctx": None}]))
@@ -81,7 +96,7 @@ def model(case):
     names = [f["name"] for f in case["frames"]]
     fr = {f["name"]: f for f in case["frames"]}
     writes = dict(case["plan"])
-    value = 0
+    fields = {"value": 0}          # the watched share, field by field
     upd = None                     # tick of last runtime update
     marks = {}                     # key -> {"tick", "transit_tick", "snap"}
     entry_marks = {}               # frame -> [(key, kind)] markers installed as first enter action of that frame
@@ -103,7 +118,7 @@ def model(case):
         if kind == "updated":
             mk["tick"] = t
         else:
-            mk["snap"] = value
+            mk["snap"] = dict(fields)
             mk["tick"] = t
         mk[how] = t
 
@@ -117,13 +132,13 @@ def model(case):
             return upd > mk["tick"] or (upd == mk["tick"] and mk["transit"] != mk["tick"])
         if mk is None or mk["tick"] is None:
             return True
-        return value != mk["snap"]
+        return fields != mk["snap"]        # fields are never removed: differs = some value differs or a field was added
 
     active = names[0]
     out = []
     ambiguous = False
     stats = {"taken": 0, "refused": 0, "same_tick_entry": 0, "same_tick_transit": 0, "before_first_mark": 0,
-             "guard_refused_marker_transition": 0, "guard_refused": 0}
+             "guard_refused_marker_transition": 0, "guard_refused": 0, "taken_on_added_field_only": 0}
     gates = case.get("gates") or {}
     exitw = case.get("exitw") or {}
     stats["exit_writes"] = 0
@@ -138,7 +153,7 @@ def model(case):
         # writer position: driver frame i is entered at tick plan[i-1][0] and its enter action writes then
         wnow = t in writes
         if wnow and case["writer"] == "front":
-            value = writes[t]
+            apply_write(fields, writes[t])
             upd = t
         if t == 0:
             enter(active, 0)
@@ -151,6 +166,9 @@ def model(case):
                 take = holds(f, n, t)
                 if take:
                     stats["taken"] += 1
+                    if n["n"] == "changed" and mk and mk["snap"] is not None and len(fields) > len(mk["snap"]) and \
+                            all(fields[k] == v for k, v in mk["snap"].items()):
+                        stats["taken_on_added_field_only"] += 1
                     if mk is None or mk["tick"] is None:
                         stats["before_first_mark"] += 1
                     elif n["n"] == "updated" and upd == mk["tick"]:
@@ -171,7 +189,7 @@ def model(case):
                 if n:
                     reset(keyof(f, n), n["n"], t, "transit")
                 if active in exitw:          # exit action of the frame being left: after the transit actions
-                    value = exitw[active]
+                    fields["value"] = exitw[active]
                     upd = t
                     stats["exit_writes"] += 1
                 active = far
@@ -180,7 +198,7 @@ def model(case):
                     if mk["entry"] == t and mk["transit"] == t:
                         ambiguous = True
         if wnow and case["writer"] == "back":
-            value = writes[t]
+            apply_write(fields, writes[t])
             upd = t
         out.append(active)
     return out, ambiguous, stats
@@ -238,7 +256,8 @@ def worker(ctx, job):
         check_case(ctx, c)
 
 
-PLANS = [[], [(1, 5)], [(2, 5), (3, 5)], [(1, 1), (2, 0), (3, 1)], [(3, 7), (6, 7), (7, 8)], [(1, 2), (4, 2), (5, 3), (9, 3)]]
+PLANS = [[], [(1, 5)], [(2, 5), (3, 5)], [(1, 1), (2, 0), (3, 1)], [(3, 7), (6, 7), (7, 8)], [(1, 2), (4, 2), (5, 3), (9, 3)],
+         [(2, ("add", "x1", 1)), (5, ("add", "x1", 1)), (8, ("add", "x2", 0))]]
 
 
 def run(ctx):
@@ -263,7 +282,7 @@ def run(ctx):
     n = 16
     ctx.shard([{"cases": cases[i::n]} for i in range(n)], timeout=ctx.pick(300, 1500))
     for k in ("taken", "refused", "same_tick_entry", "same_tick_transit", "before_first_mark", "need_updated", "need_changed",
-              "with_in_frame", "with_by", "guard_refused_marker_transition", "same_frame_different_marks", "exit_writes"):
+              "with_in_frame", "with_by", "guard_refused_marker_transition", "same_frame_different_marks", "exit_writes", "taken_on_added_field_only"):
         ctx.floor(k, 20)
 
 
@@ -293,6 +312,9 @@ def random_case(rng, opts, gated=None, exitwrites=None):
     plan = sorted(set((rng.randint(1, TICKS - 2), rng.choice([0, 1, 1, 2])) for _ in range(rng.randint(0, 6))))
     seen = set()
     plan = [p for p in plan if not (p[0] in seen or seen.add(p[0]))]
+    if rng.random() < 0.35:
+        # some writes set a field the share does not have yet (added since the snapshot), or set it again
+        plan = [(t, ("add", rng.choice(["x1", "x1", "x2"]), rng.choice([0, 1]))) if rng.random() < 0.5 else (t, v) for t, v in plan]
     gates = {}
     if gated or rng.random() < 0.4:
         for nm in names[1:]:
